@@ -17,10 +17,21 @@ let si_of = function
 let si_sexp x = L [a_z x.bits; a_z x.stride; a_z x.lb; a_z x.ub; A (if x.bot then "1" else "0")]
 let bool_sexp b = A (if b then "1" else "0")
 
+let reg_of = function L [r; a] -> (z_a r, si_of a) | _ -> failwith "region"
+let vs_sexp v = L (List.map (fun (r, a) -> L [a_z r; si_sexp a]) v)
+
 let handle = function
   | L [A "add"; a; b] -> res_sexp si_sexp (si_add (si_of a) (si_of b))
   | L [A "sub"; a; b] -> res_sexp si_sexp (si_sub (si_of a) (si_of b))
   | L [A "neg"; a] -> res_sexp si_sexp (si_neg (si_of a))
+  | L [A "dsis_add"; L s; L t] -> res_sexp (fun r -> L (List.map si_sexp r)) (dsis_add (List.map si_of s) (List.map si_of t))
+  | L [A "dsis_sub"; L s; L t] -> res_sexp (fun r -> L (List.map si_sexp r)) (dsis_sub (List.map si_of s) (List.map si_of t))
+  | L [A "dsis_neg"; L s] -> res_sexp (fun r -> L (List.map si_sexp r)) (dsis_neg (List.map si_of s))
+  | L [A "vs_add"; L v; c] -> res_sexp vs_sexp (vs_add_z (List.map reg_of v) (si_of c))
+  | L [A "vs_sub"; L v; c] -> res_sexp vs_sexp (vs_sub_z (List.map reg_of v) (si_of c))
+  | L [A "vunion"; L v; L w] ->
+    let tr = function L [r; L ids] -> (z_a r, List.map z_a ids) | _ -> failwith "trace" in
+    L (List.map (fun (r, ids) -> L [a_z r; L (List.map a_z ids)]) (vunion_trace (List.map tr v) (List.map tr w)))
   | L [A "mk"; a] -> res_sexp si_sexp (normalize (si_of a))
   | L [A "top"; w] -> res_sexp si_sexp (top (z_a w))
   | L [A "members"; a] -> L (List.map a_z (members (si_of a)))
